@@ -532,7 +532,16 @@ def r30(ctx: Ctx) -> RuleReport:
                         v = n.value
                         good = isinstance(v, ast.Call) and norm(v.func) == fi.name and (f'is_atomic({l_tgt})', False) in facts
                         rep.add(f'{fi.fq}: targets change only by recursion into nested nodes', fi.loc(n), 'ok' if good else 'undecided', norm(n)[:60])
-                rep.add(f'{fi.fq}: target slot is the loop target', fi.loc(a), 'ok' if norm(o_tgt) == l_tgt else 'undecided', norm(o_tgt))
+                from ..resolve import expand
+                ot = expand(ctx, fi, o_tgt, a)
+                tgt_ok = norm(o_tgt) == l_tgt
+                if isinstance(ot, ast.IfExp):
+                    rec_call = lambda x: isinstance(x, ast.Call) and norm(x.func) == fi.name and x.args and norm(x.args[0]) == l_tgt  # noqa: E731
+                    if norm(ot.test) == f'is_atomic({l_tgt})' and norm(ot.body) == l_tgt and rec_call(ot.orelse):
+                        tgt_ok = True
+                    if norm(ot.test) == f'not is_atomic({l_tgt})' and norm(ot.orelse) == l_tgt and rec_call(ot.body):
+                        tgt_ok = True
+                rep.add(f'{fi.fq}: target slot is the loop target (nested nodes by recursion)', fi.loc(a), 'ok' if tgt_ok else 'undecided', norm(o_tgt))
                 # role: canonicalize_role(base) + tilde + alignment with (base, tilde, alignment) = role.partition('~')
                 r = single_def(ctx, fi, o_role)
                 parts = _concat_parts(r)
@@ -555,6 +564,15 @@ def r30(ctx: Ctx) -> RuleReport:
         rets = [n for n in walk_local(fi.node) if isinstance(n, ast.Return) and n.value is not None]
         for r in rets:
             v = r.value
+            if isinstance(v, ast.Tuple) and len(v.elts) == 2 and norm(v.elts[1]) == v_br:
+                fr = facts_at(cfg, IN, pm, r)
+                if (v_br, False) in fr or (f'len({v_br}) == 0', True) in fr or (f'not {v_br}', True) in fr:
+                    rep.ok(f'{fi.fq}: returns (variable, output branches)', fi.loc(r), 'the empty branch list is returned as it is')
+                    continue
+                rep.violation(f'{fi.fq}: returns (variable, output branches)', fi.loc(r),
+                              f'`return {norm(v)}` hands back the *input* branch list `{v_br}`: on this path the branches are not rewritten at all '
+                              f'(references, nested nodes and roles below this node keep their old form)')
+                continue
             good = isinstance(v, ast.Tuple) and len(v.elts) == 2 and norm(v.elts[1]) == out
             if good:
                 first = norm(v.elts[0])
@@ -632,11 +650,11 @@ def r33(ctx: Ctx) -> RuleReport:
 
 @rule('R38', 'a node enters the dereification agenda only if it is not the top, not referenced, has exactly two relations and a dereifiable concept')
 def r38(ctx: Ctx) -> RuleReport:
-    rep = RuleReport('R38', r38.title, floor=6)
+    from ..resolve import facts_ex
+    rep = RuleReport('R38', r38.title, floor=5)
     fi = ctx.repo.func('penman.transform', '_dereify_agenda')
     gp = fi.positional[0]
     cfg = CFG(fi.node)
-    IN = cond_facts(cfg)
     pm = ctx.repo.parent_map(fi.node)
     stores = [n for n in walk_local(fi.node) if isinstance(n, ast.Assign) and isinstance(n.targets[0], ast.Subscript)
               and norm(n.targets[0].value) == 'agenda']
@@ -644,53 +662,137 @@ def r38(ctx: Ctx) -> RuleReport:
         raise AnalysisError('_dereify_agenda: expected one store into agenda')
     st = stores[0]
     var = norm(st.targets[0].slice)
-    facts = facts_at(cfg, IN, pm, st)
-    fixed_names = [nm for nm, vals in ctx.cg.local_assigns(fi).items()
-                   if len(vals) == 1 and isinstance(vals[0], ast.Call) and norm(vals[0].func) == 'set' and f'{gp}.top' in norm(vals[0])]
-    if len(fixed_names) != 1:
-        rep.undecided(f'{fi.fq}: the set of fixed nodes starts with the top', fi.loc(), 'no `set([g.top])` initialisation')
+    facts = facts_ex(ctx, fi, st)
+    fx = None
+    for f, pol in facts:
+        if (f.startswith(f'{var} not in ') and pol) or (f.startswith(f'{var} in ') and not pol):
+            cand = f.split(' in ', 1)[1]
+            if cand.isidentifier() and cand != 'agenda':
+                fx = cand
+    key1 = f'{fi.fq}: agenda entry requires: not fixed (not the top, not referenced elsewhere)'
+    if fx is None:
+        rep.undecided(key1, fi.loc(st), f'guards present: {sorted(f for f, p in facts if p)}')
         return rep
-    fx = fixed_names[0]
-    rep.ok(f'{fi.fq}: the set of fixed nodes starts with the top', fi.loc())
-    need = {
-        'not fixed (not the top, not referenced)': (f'{var} not in {fx}', True),
-        'exactly two other relations': None,
-        'concept is dereifiable': None,
-    }
-    ok1 = (f'{var} not in {fx}', True) in facts or (f'{var} in {fx}', False) in facts
-    ok2 = any(pol and f.startswith('len(other.get(') and f.endswith('== 2') for f, pol in facts)
+    rep.ok(key1, fi.loc(st), f'{var} not in {fx}')
+    ok2 = any((pol and f.startswith('len(') and f.endswith('== 2')) or (not pol and f.startswith('len(') and f.endswith('!= 2')) for f, pol in facts)
     ok3 = any(pol and 'is_concept_dereifiable(' in f for f, pol in facts)
-    for nm, good in (('not fixed (not the top, not referenced elsewhere)', ok1), ('has exactly two non-instance relations', ok2),
-                     ('its concept is dereifiable', ok3)):
+    for nm, good in (('has exactly two non-instance relations', ok2), ('its concept is dereifiable', ok3)):
         rep.add(f'{fi.fq}: agenda entry requires: {nm}', fi.loc(st), 'ok' if good else 'undecided',
                 '' if good else f'guards present: {sorted(f for f, p in facts if p)}')
-    # fixed.add(tgt) runs for every non-instance triple of the loop over g.triples, unconditionally
-    adds = [n for n in walk_local(fi.node) if isinstance(n, ast.Call) and norm(n.func) == f'{fx}.add']
-    loop = next((n for n in walk_local(fi.node) if isinstance(n, ast.For) and norm(n.iter) == f'{gp}.triples'), None)
-    if loop is None or len(adds) != 1:
-        rep.undecided(f'{fi.fq}: every target of a non-instance triple is recorded as referenced', fi.loc(),
-                      'no single fixed.add(target) inside a loop over all of g.triples')
-        return rep
-    a = adds[0]
-    af = facts_at(cfg, IN, pm, a)
-    conds = {(f, p) for f, p in af}
-    allowed = {('role == CONCEPT_ROLE', False), ('role != CONCEPT_ROLE', True)}
-    # unpacked names
-    tgt_ok = False
-    for n in ast.walk(loop):
-        if isinstance(n, ast.Assign) and isinstance(n.targets[0], ast.Tuple) and len(n.targets[0].elts) == 3 \
-                and norm(n.value) == norm(loop.target):
-            names = [norm(e) for e in n.targets[0].elts]
-            allowed = {(f'{names[1]} == CONCEPT_ROLE', False), (f'{names[1]} != CONCEPT_ROLE', True)}
-            tgt_ok = norm(a.args[0]) == names[2]
-    extra = {c for c in conds if c not in allowed}
-    good = bool(conds & allowed) and not extra and tgt_ok
-    rep.add(f'{fi.fq}: every target of a non-instance triple is recorded as referenced', fi.loc(a), 'ok' if good else 'undecided',
-            '' if good else f'the recording is additionally conditional on {sorted(extra)}' if extra else f'conditions {sorted(conds)}; argument {norm(a.args[0])}')
-    # and the agenda loop runs after the recording loop has finished
-    sn, ln = cfg.node_of(st), cfg.node_of(loop)
-    rep.add(f'{fi.fq}: candidates are examined only after all triples were scanned', fi.loc(st),
-            'ok' if ln not in cfg.reachable_from([sn]) else 'undecided')
+    # everything that ever flows into the fixed set
+    feeds: List[Tuple[str, ast.AST, str]] = []      # (kind, node, detail); kind: top | targets | bad | unknown | empty
+    loops = [n for n in walk_local(fi.node) if isinstance(n, ast.For) and norm(n.iter) == f'{gp}.triples']
+
+    def slot2_names(loop: ast.For) -> Tuple[Set[str], Set[str]]:
+        roles, tgts = set(), set()
+        if isinstance(loop.target, ast.Tuple) and len(loop.target.elts) == 3:
+            roles.add(norm(loop.target.elts[1]))
+            tgts.add(norm(loop.target.elts[2]))
+        elif isinstance(loop.target, ast.Name):
+            roles.add(f'{loop.target.id}[1]')
+            tgts.add(f'{loop.target.id}[2]')
+            for n in ast.walk(loop):
+                if isinstance(n, ast.Assign) and isinstance(n.targets[0], ast.Tuple) and len(n.targets[0].elts) == 3 and norm(n.value) == loop.target.id:
+                    roles.add(norm(n.targets[0].elts[1]))
+                    tgts.add(norm(n.targets[0].elts[2]))
+        return roles, tgts
+
+    def classify_value(v: ast.AST, at: ast.AST):
+        for x in ast.walk(v):
+            if isinstance(x, ast.Attribute) and x.attr == 'top' and norm(x.value) == gp:
+                feeds.append(('top', at, norm(v)[:50]))
+        comps = [x for x in ast.walk(v) if isinstance(x, (ast.SetComp, ast.GeneratorExp, ast.ListComp))]
+        for c in comps:
+            g = c.generators[0]
+            if norm(g.iter) == f'{gp}.triples' and isinstance(g.target, ast.Tuple) and len(g.target.elts) == 3 and len(c.generators) == 1:
+                role, tgt = norm(g.target.elts[1]), norm(g.target.elts[2])
+                conds = {norm(x) for x in g.ifs}
+                if norm(c.elt) == tgt and conds <= {f'{role} != CONCEPT_ROLE', f'CONCEPT_ROLE != {role}'} and conds:
+                    feeds.append(('targets', at, norm(c)[:60]))
+                else:
+                    feeds.append(('unknown', at, norm(c)[:60]))
+            else:
+                feeds.append(('unknown', at, norm(c)[:60]))
+        if not comps and not any(isinstance(x, ast.Attribute) and x.attr == 'top' for x in ast.walk(v)):
+            empty = (isinstance(v, ast.Call) and norm(v.func) == 'set' and not v.args) or (isinstance(v, (ast.Set, ast.List)) and not v.elts)
+            feeds.append(('empty' if empty else 'unknown', at, norm(v)[:50]))
+    for n in walk_local(fi.node):
+        if isinstance(n, (ast.Assign, ast.AnnAssign)) and n.value is not None:
+            tg = n.targets[0] if isinstance(n, ast.Assign) else n.target
+            if norm(tg) == fx:
+                classify_value(n.value, n)
+        if isinstance(n, ast.AugAssign) and norm(n.target) == fx:
+            classify_value(n.value, n)
+        if isinstance(n, ast.Call) and isinstance(n.func, ast.Attribute) and norm(n.func.value) == fx:
+            if n.func.attr == 'update' and n.args:
+                classify_value(n.args[0], n)
+            elif n.func.attr == 'add' and n.args:
+                a = n.args[0]
+                while isinstance(a, ast.Call) and norm(a.func) in ('cast', 'typing.cast') and len(a.args) == 2:
+                    a = a.args[1]
+                if isinstance(a, ast.Attribute) and a.attr == 'top' and norm(a.value) == gp:
+                    feeds.append(('top', n, norm(n)))
+                    continue
+                loop = next((l for l in loops if any(x is n for x in ast.walk(l))), None)
+                if loop is None:
+                    feeds.append(('unknown', n, norm(n)))
+                    continue
+                roles, tgts = slot2_names(loop)
+                if norm(a) not in tgts:
+                    feeds.append(('unknown', n, norm(n)))
+                    continue
+                af = facts_ex(ctx, fi, n)
+                allowed = {(f'{r} == CONCEPT_ROLE', False) for r in roles} | {(f'{r} != CONCEPT_ROLE', True) for r in roles} \
+                    | {(f'CONCEPT_ROLE == {r}', False) for r in roles} | {(f'CONCEPT_ROLE != {r}', True) for r in roles}
+                extra = sorted(c for c in af if c not in allowed and not any(c in facts_ex(ctx, fi, l) for l in [loop]))
+                if not (af & allowed):
+                    feeds.append(('unknown', n, f'{norm(n)} is not restricted to non-instance triples'))
+                elif not extra:
+                    feeds.append(('targets', n, norm(n)))
+                else:
+                    # an extra condition that reads a collection the same loop is still filling depends on the order of the triples
+                    filled = set()
+                    for x in ast.walk(loop):
+                        if isinstance(x, ast.Assign) and isinstance(x.targets[0], ast.Subscript) and isinstance(x.targets[0].value, ast.Name):
+                            filled.add(x.targets[0].value.id)
+                        if isinstance(x, ast.Call) and isinstance(x.func, ast.Attribute) and x.func.attr in ('add', 'append', 'setdefault') \
+                                and isinstance(x.func.value, ast.Name):
+                            filled.add(x.func.value.id)
+                    hit = [(c, p) for c, p in extra if any(isinstance(y, ast.Name) and y.id in filled - {fx} for y in ast.walk(ast.parse(c, mode='eval')))]
+                    if hit:
+                        feeds.append(('bad', n, f'{norm(n)} runs only when `{hit[0][0]}` is {hit[0][1]}, a test on a collection that this very loop is still '
+                                               f'filling: a target whose own triples come later in the list is not recorded, so a node that another '
+                                               f'edge points to can be dereified away'))
+                    else:
+                        feeds.append(('unknown', n, f'{norm(n)} additionally conditional on {extra}'))
+    kinds = {k for k, _, _ in feeds}
+    listing = '; '.join(f'{k}: {d}' for k, _, d in feeds)
+    for k, n, d in feeds:
+        if k == 'bad':
+            rep.violation(f'{fi.fq}: every target of a non-instance triple is recorded as referenced', fi.loc(n), d)
+    closed = 'unknown' not in kinds and 'bad' not in kinds
+    key = f'{fi.fq}: the set of fixed nodes contains the top'
+    if 'top' in kinds:
+        rep.ok(key, fi.loc(), listing[:200])
+    elif closed:
+        rep.violation(key, fi.loc(), f'everything that flows into `{fx}` is [{listing}]: the top is never among it unless it is also some edge\'s '
+                      f'target, so a top node that looks like a reified relation is collapsed and the graph loses its top')
+    else:
+        rep.undecided(key, fi.loc(), listing[:200])
+    key = f'{fi.fq}: every target of a non-instance triple is recorded as referenced'
+    if 'targets' in kinds:
+        rep.ok(key, fi.loc(), listing[:200])
+    elif closed:
+        rep.violation(key, fi.loc(), f'everything that flows into `{fx}` is [{listing}]: targets of other edges are not recorded, so a node that is '
+                      f'referenced elsewhere can be collapsed, leaving a dangling reference')
+    elif 'bad' not in kinds:
+        rep.undecided(key, fi.loc(), listing[:200])
+    # and the agenda loop runs after the recording has finished
+    sn = cfg.node_of(st)
+    scan = [cfg.node_of(l) for l in loops if any(k == 'targets' and any(x is n for x in ast.walk(l)) for k, n, _ in feeds)]
+    if scan:
+        rep.add(f'{fi.fq}: candidates are examined only after all triples were scanned', fi.loc(st),
+                'ok' if all(ln not in cfg.reachable_from([sn]) for ln in scan) else 'undecided')
     return rep
 
 
